@@ -212,6 +212,22 @@ fn run_impl(script: &str, files: &[(String, FileSpec)], yash3: bool) -> Result<R
     {
         use std::os::unix::process::CommandExt as _;
         cmd.process_group(0);
+        // The shell must start with default dispositions whatever this process inherited (a
+        // harness started as a background job of a non-interactive shell has SIGINT and SIGQUIT
+        // ignored, which would make every "ignored on entry" rule apply to the real side only).
+        unsafe {
+            cmd.pre_exec(|| {
+                for sig in 1..32 {
+                    if sig != libc::SIGKILL && sig != libc::SIGSTOP {
+                        libc::signal(sig, libc::SIG_DFL);
+                    }
+                }
+                let mut set: libc::sigset_t = std::mem::zeroed();
+                libc::sigemptyset(&mut set);
+                libc::sigprocmask(libc::SIG_SETMASK, &set, std::ptr::null_mut());
+                Ok(())
+            });
+        }
     }
     // output goes to files (no reader threads, no pipe-capacity interference)
     let so_path = dir.path().join("stdout");
